@@ -3,7 +3,7 @@ several real connections (go-redis) to 1-3 in-process members; channel and patte
 no-match, overlap and duplicates.  Oracle: exactly-once delivery to every matching subscription, the
 PUBLISH count, silence after leaving, PUBSUB CHANNELS / NUMSUB / NUMPAT."""
 HEADER = 3
-REQUIRED_SHAPES = ["command_name_not_lower_case", "publish_to_raw_subscribers", "publish_with_pattern_nomatch", "publish_channel_and_pattern_same_conn", "duplicate_subscribe",
+REQUIRED_SHAPES = ["command_name_not_lower_case", "raw_subscriber_quit", "publish_to_raw_subscribers", "publish_with_pattern_nomatch", "publish_channel_and_pattern_same_conn", "duplicate_subscribe",
                    "publish_after_unsubscribe", "publish_after_disconnect", "publish_cross_member"]
 
 CHANNELS = [b"news", b"news.a", b"sport", b"n"]
@@ -77,6 +77,11 @@ class Oracle:
         if name == "c.rawdrop":
             self.__dict__.setdefault("raw", {}).pop(a[0], None)
             return None
+        if name == "c.rawquit":
+            # QUIT in subscriber mode: the member hangs up and the connection's subscriptions are gone
+            if self.__dict__.setdefault("raw", {}).pop(a[0], None) is not None:
+                self.hit("raw_subscriber_quit")
+            return None if reply == "ok" else "QUIT on a subscriber connection: %s" % reply
         if name == "c.rawint":
             toks = [unhx(t) for t in a[1:]]
             raw = self.__dict__.get("raw", {})
@@ -216,8 +221,15 @@ class Gen:
                 cmd = [style(b"unsubscribe")] + (r.sample(chans, 1) if r.random() < 0.8 else [])
             elif w < 0.92:
                 cmd = [style(b"punsubscribe")] + (r.sample(pats, 1) if r.random() < 0.8 else [])
+            elif conn in getattr(orc, "raw", {}) and step > 2:
+                # the connection says QUIT in subscriber mode; publishes and NUMPAT right afterwards must not count it
+                yield "c.rawquit %s 0" % conn
+                for ch in (b"a", b"b"):
+                    yield "c.rawint 0 %s" % " ".join(hx(t) for t in [b"publish", ch, b"q%d" % step])
+                yield "c.rawint 0 %s" % " ".join(hx(t) for t in [b"pubsub", b"numpat"])
+                continue
             else:
-                continue          # (disconnects are the business of the other episodes: their effect is not instantaneous)
+                continue
             if step == 0 or conn not in getattr(orc, "raw", {}):
                 cmd = [style(b"subscribe"), b"a"] if r.random() < 0.5 else [style(b"psubscribe"), b"a*"]   # enter subscriber mode first
             yield "c.rawhold %s 0 %s" % (conn, " ".join(hx(t) for t in cmd))
